@@ -197,3 +197,11 @@ func specMacroBody(env Env, name string) Exp {
 //@ func parseHex
 //@ props C06
 //@ ensures[prefix] result1 ==> len(s) >= 2
+
+// Thin safety-only contracts (C13): these functions get one obligation per panic site; callers keep
+// using their bodies (option inline).
+
+//@ func parseChar
+//@ props C13
+//@ option inline
+//@ ensures[safe] true
